@@ -2397,3 +2397,75 @@ func ruleNoResolvedValueKept(w *World, r *Report, rule string) {
 		r.OK(rule, "godi#keeps-resolved:none", token.NoPos, false, "%d functions bind the result of a resolution to a variable: none stores it in a field of a shared record (%d record types reachable from provider, scope, collection, Descriptor)", fns, len(shared))
 	}
 }
+
+// ruleAddReplacesEdges: the two ways of adding a provider agree on what an add
+// does to the node it lands on: on every accepting path the node's edge list and
+// its own dependency list are replaced by the new provider's (sibling agreement of
+// AddProvider and AddProviderDeferred). An add that only writes them when the new
+// provider has dependencies lets a replacement inherit the edges of the provider
+// it replaces: every query disagrees with the digraph that was actually described,
+// and a cycle through the stale edge is reported that does not exist.
+func ruleAddReplacesEdges(w *World, r *Report, rule string) {
+	g := resolveGraph(w)
+	n := 0
+	for _, fi := range w.FuncsOf(w.Graph) {
+		if !fi.Obj.Exported() || recvNamed(fi.Obj) == nil || recvNamed(fi.Obj).Obj().Name() != "DependencyGraph" {
+			continue
+		}
+		info := fi.Pkg.TypesInfo
+		// an add: assigns Provider of a node
+		setsProvider := false
+		ast.Inspect(fi.Decl.Body, func(x ast.Node) bool {
+			if as, ok := x.(*ast.AssignStmt); ok {
+				for _, l := range as.Lhs {
+					if fv := fieldOf(info, l); fv != nil && fv.Name() == "Provider" && ownerOfFieldRaw(w, fv) == "Node" {
+						if len(as.Rhs) == 1 && !isNilIdent(info, as.Rhs[0]) {
+							setsProvider = true
+						}
+					}
+				}
+			}
+			return true
+		})
+		if !setsProvider {
+			continue
+		}
+		n++
+		r.Analysed(fi)
+		fl := w.FlowOf(fi)
+		sol := fl.Solve(Spec{Must: true, Global: globalPrefixes("edges-set", "deps-set"),
+			Node: func(nd ast.Node, in Facts) (gen, kill []string) {
+				if as, ok := nd.(*ast.AssignStmt); ok {
+					for _, l := range as.Lhs {
+						if ix, isIx := unparen(l).(*ast.IndexExpr); isIx && fieldOf(info, ix.X) == g.edges {
+							gen = append(gen, "edges-set")
+						}
+						if fv := fieldOf(info, l); fv != nil && fv == g.nodeDeps {
+							gen = append(gen, "deps-set")
+						}
+					}
+				}
+				for _, c := range callsIn(nd, false) {
+					if id, ok := unparen(c.Fun).(*ast.Ident); ok && id.Name == "delete" && len(c.Args) == 2 && fieldOf(info, c.Args[0]) == g.edges {
+						gen = append(gen, "edges-set")
+					}
+				}
+				return
+			}})
+		k := 0
+		for _, ex := range fl.Exits() {
+			if ex.Panic || ex.Ret == nil || len(ex.Ret.Results) != 1 || !isNilIdent(info, ex.Ret.Results[0]) {
+				continue // a rejecting exit
+			}
+			k++
+			at := sol.AtExit(ex)
+			ok := at.Has("edges-set") && at.Has("deps-set")
+			r.Check(ok, rule, fmt.Sprintf("%s#accepting-exit/%d", fi.Name(), k), ex.Pos, true,
+				"the node's edge list and dependency list have been replaced on every path to this accepting exit",
+				fmt.Sprintf("%s can accept a provider without having replaced the node's entry in the edge table (set: %v) and its dependency list (set: %v): a provider that replaces an earlier one keeps the earlier one's edges when it has no dependencies of its own", fi.Name(), at.Has("edges-set"), at.Has("deps-set")))
+		}
+	}
+	if n < 2 {
+		r.Fail(rule, "graph#adds", token.NoPos, "expected two exported adds (immediate and deferred), found %d", n)
+	}
+}
